@@ -192,6 +192,44 @@ def h_delay_datetime(a, inst):
     return same_events(log, ref_delay(xs, ts, term, tt, d))
 
 
+# ------------------------------------------------------------------ delay_with_mapper: a delay observable that fires synchronously
+from reactivex.subject import BehaviorSubject, ReplaySubject  # noqa: E402
+
+
+@harness(instances=lambda tier: [{"N": n, "gate": g} for n in (1, 2) for g in ("behavior", "replay", "of_immediate")],
+         g=I(0, 2, n=lambda i: i["N"]), tg=I(0, 2), term=I(0, 2), timeout=(60, 600))
+def h_delay_with_mapper_sync(a, inst):
+    """the per-element delay observable is an already open gate (BehaviorSubject / ReplaySubject with a value, or a synchronous
+    source): it fires while it is being subscribed.  Every element is released at once and the source's termination is still
+    forwarded (nothing stays counted as pending)"""
+    from reactivex.scheduler import ImmediateScheduler
+    n = inst["N"]
+    sch = make_scheduler()
+    xs = list(range(n))
+    ts = times_from_gaps(a.g)
+    tt = (ts[-1] if ts else 210) + a.tg
+    src = sch.create_hot_observable(messages(xs, a.g, a.term, a.tg))
+
+    def gate_for(x):
+        if inst["gate"] == "behavior":
+            return BehaviorSubject(0)
+        if inst["gate"] == "replay":
+            r = ReplaySubject(scheduler=ImmediateScheduler())
+            r.on_next(0)
+            return r
+        return reactivex.from_iterable([0], scheduler=ImmediateScheduler())  # emits and completes while being subscribed
+
+    res = sch.start(lambda: src.pipe(ops.delay_with_mapper(gate_for)), disposed=260)
+    got = rec_tuples(res.messages)
+    exp = [(t, "N", x) for x, t in zip(xs, ts)]
+    if a.term == 1:
+        exp.append((tt, "C", None))
+    elif a.term == 2:
+        exp.append((tt, "E", SRC_ERR))
+    cover("ran")
+    return same_events(got, exp)
+
+
 ENCODED = ["reactivex/operators/_delay.py", "reactivex/operators/_delaysubscription.py", "reactivex/operators/_delaywithmapper.py",
            "reactivex/operators/_timestamp.py", "reactivex/operators/_timeinterval.py", "reactivex/observable/timer.py"]
 BOUNDS = {"quick": "N<=3 elements (delay_with_mapper N<=2), gaps in [0,3] incl. same-instant bursts, terminal none/completed/error at "
